@@ -45,7 +45,7 @@ func (c17) Meta() fw.Meta {
 			"the race detector sees only races that happen in the executed schedules; in-flight overlap is measured and a trial without overlap does not count as non-trivial",
 			"requests carry their clock (now) so sequential and concurrent executions are comparable bit for bit",
 		},
-		Obligations: []string{"handle_trials", "handle_concurrent_calls", "sum_trials", "sum_concurrent_calls", "sum_out_of_order_forced", "server_trials", "server_concurrent_requests", "endpoint_view", "endpoint_view_raw", "endpoint_sum", "endpoint_items", "endpoint_files", "cli_race_runs", "max_in_flight_ge2", "requests_differing_only_in_clock", "sum_error_path_trials", "trials_with_never_written_archives", "served_file_locked_over_1s", "requests_after_a_failed_request", "trials_with_90_requests_in_their_handlers"},
+		Obligations: []string{"handle_trials", "handle_concurrent_calls", "sum_trials", "sum_concurrent_calls", "sum_out_of_order_forced", "server_trials", "server_concurrent_requests", "endpoint_view", "endpoint_view_raw", "endpoint_sum", "endpoint_items", "endpoint_files", "cli_race_runs", "max_in_flight_ge2", "requests_differing_only_in_clock", "sum_error_path_trials", "trials_with_never_written_archives", "served_file_locked_over_1s", "requests_after_a_failed_request", "trials_with_90_requests_in_their_handlers", "handle_trials_with_a_damaged_archive", "failing_requests_in_the_parallel_mix"},
 		Race:        true,
 		Workers:     6,
 	}
@@ -155,6 +155,23 @@ func c17Handle(c *fw.Ctx) {
 	now := int64(1700000000 + r.Intn(1000000))
 	path := filepath.Join(c.TmpDir(), "shared.wsp")
 	c17FillFile(r, path, l, now, true)
+	if c.Index%2 == 0 {
+		// every 2nd trial: one archive is damaged (its first slot holds a time that is no multiple of the step), the others
+		// are healthy; fetches of the damaged one fail, and that must stay their own business
+		for ai := len(l.Archs) - 1; ai >= 1; ai-- {
+			if l.Archs[ai].Step < 2 {
+				continue
+			}
+			if img := readFileOrNil(path); img != nil {
+				off := l.Offsets()[ai]
+				t := uint32(model.AlignDown(now, l.Archs[ai].Step)) + 1
+				img[off], img[off+1], img[off+2], img[off+3] = byte(t>>24), byte(t>>16), byte(t>>8), byte(t)
+				ioutil.WriteFile(path, img, 0644)
+				c.Count("handle_trials_with_a_damaged_archive", 1)
+			}
+			break
+		}
+	}
 	var reqs []c17req
 	for i := 0; i < 80; i++ {
 		ai := r.Intn(len(l.Archs))
@@ -173,15 +190,16 @@ func c17Handle(c *fw.Ctx) {
 		return tsKey(db.FetchFromArchive(q.Arch, u32(q.From), u32(q.Until), u32(now)))
 	}
 	// sequential reference on another handle (keeps the shared handle's cache cold)
-	ref, err := wt.Open(path, wt.WithoutFlock())
-	if err != nil {
-		panic(err)
-	}
 	want := make([]string, len(reqs))
 	for i, q := range reqs {
+		// "executed alone": a handle of its own for every reference request
+		ref, err := wt.Open(path, wt.WithoutFlock())
+		if err != nil {
+			panic(err)
+		}
 		want[i] = exec1(ref, q)
+		ref.Close()
 	}
-	ref.Close()
 	shared, err := wt.Open(path)
 	if err != nil {
 		panic(err)
@@ -563,6 +581,18 @@ func c17Server(c *fw.Ctx) {
 			add("files", "/files?pattern="+url.QueryEscape([]string{"*/*.wsp", "a/*.wsp", "n/x/m0.wsp", "q/*.wsp"}[r.Intn(4)]))
 		}
 	}
+	// failing requests of several kinds on the same endpoints (each answered with ITS error, also when others fail at
+	// the same moment)
+	ioutil.WriteFile(filepath.Join(base, "garbage.wsp"), bytes.Repeat([]byte("not a whisper file "), 20), 0644)
+	for k := 0; k < 6; k++ {
+		f := files[r.Intn(len(files))]
+		add("view", fmt.Sprintf("/view?file=%s&retention=abc&from=%s&until=%s&now=%s", url.QueryEscape(f), ts(now-10), ts(now), ts(now)))
+		add("view", fmt.Sprintf("/view?file=%s&retention=-1&from=%s&until=%s&now=%s", url.QueryEscape("garbage.wsp"), ts(now-10), ts(now), ts(now)))
+		add("view", fmt.Sprintf("/view?file=%s&retention=-1&from=%s&until=%s&now=%s", url.QueryEscape(fmt.Sprintf("nothing-%d.wsp", k)), ts(now-10), ts(now), ts(now)))
+		add("view_raw", fmt.Sprintf("/view-raw?file=%s&retention=%d", url.QueryEscape(f), len(l.Archs)+3+k))
+		add("sum", fmt.Sprintf("/sum?item=a&pattern=%s&retention=x%d&from=%s&until=%s&now=%s", url.QueryEscape("*.wsp"), k, ts(now-10), ts(now), ts(now)))
+	}
+	c.Count("failing_requests_in_the_parallel_mix", 30)
 	// requests that differ ONLY in the client's clock (windows clamped by now): each must be answered for its own clock
 	for i := 0; i < 6; i++ {
 		f := files[r.Intn(len(files))]
